@@ -598,6 +598,100 @@ theorem C03_simd_batches_max (B : Nat) (is : List Int) (m0 : Int) :
     batchLoop B flushMax is [] m0 = is.foldl maxI m0 := by
   rw [batchLoop_eq B flushMax maxI flushMax_eq]; simp
 
+/-! ### initial value of a running MIN / MAX -/
+
+/-- MAX: a fold that starts from any `init` below every value is the maximum of the list — for
+EVERY list of keys (no sign assumption), `none` exactly on the empty list -/
+theorem C03_max_fold_init (init : Int) (is : List Int) (h : ∀ i, i ∈ is → init ≤ i) :
+    (is.map Value.int).foldl maxStep none = (if is = [] then none else some (.int (is.foldl maxI init))) := by
+  have gen : ∀ (l : List Int) (m : Int),
+      (l.map Value.int).foldl maxStep (some (.int m)) = some (.int (l.foldl maxI m)) := by
+    intro l
+    induction l with
+    | nil => intro m; rfl
+    | cons i l ih =>
+      intro m
+      simp only [List.map_cons, List.foldl_cons, maxStep, cmpSql_int, maxI]
+      have : (compare i m = .gt) ↔ m < i := Int.compare_eq_gt
+      by_cases hgt : m < i
+      · simp only [this.mpr hgt, if_true, hgt]; exact ih i
+      · have : ¬ compare i m = .gt := fun e => hgt (this.mp e)
+        simp only [this, if_false, hgt]; exact ih m
+  cases is with
+  | nil => rfl
+  | cons i l =>
+    simp only [List.map_cons, List.foldl_cons, maxStep]
+    rw [gen l i]
+    have hi := h i (by simp)
+    simp only [reduceCtorEq, if_false, maxI]
+    by_cases hgt : init < i
+    · simp [hgt]
+    · have : i = init := by omega
+      simp [this]
+
+theorem C03_min_fold_init (init : Int) (is : List Int) (h : ∀ i, i ∈ is → i ≤ init) :
+    (is.map Value.int).foldl minStep none = (if is = [] then none else some (.int (is.foldl minI init))) := by
+  have gen : ∀ (l : List Int) (m : Int),
+      (l.map Value.int).foldl minStep (some (.int m)) = some (.int (l.foldl minI m)) := by
+    intro l
+    induction l with
+    | nil => intro m; rfl
+    | cons i l ih =>
+      intro m
+      simp only [List.map_cons, List.foldl_cons, minStep, cmpSql_int, minI]
+      have : (compare i m = .lt) ↔ i < m := Int.compare_eq_lt
+      by_cases hlt : i < m
+      · simp only [this.mpr hlt, if_true, hlt]; exact ih i
+      · have : ¬ compare i m = .lt := fun e => hlt (this.mp e)
+        simp only [this, if_false, hlt]; exact ih m
+  cases is with
+  | nil => rfl
+  | cons i l =>
+    simp only [List.map_cons, List.foldl_cons, minStep]
+    rw [gen l i]
+    have hi := h i (by simp)
+    simp only [reduceCtorEq, if_false, minI]
+    by_cases hlt : i < init
+    · simp [hlt]
+    · have : i = init := by omega
+      simp [this]
+
+/-- … and the batched kernel started from such an `init` is that maximum as well -/
+theorem C03_simd_batches_max_is_max (B : Nat) (init : Int) (is : List Int) (h : ∀ i, i ∈ is → init ≤ i) :
+    (is.map Value.int).foldl maxStep none =
+      (if is = [] then none else some (.int (batchLoop B flushMax is [] init))) := by
+  rw [C03_simd_batches_max, C03_max_fold_init init is h]
+
+/-- a wrong start value is wrong: started above some value, the fold does not return the maximum
+(the f64 key of `f64::MIN_POSITIVE` against a column of non-positive values) -/
+theorem C03_bad_init_counterexample :
+    ([-5, 0].map Value.int).foldl maxStep none ≠ some (.int ([-5, 0].foldl maxI 4503599627370496)) := by
+  decide
+
+/-- every simd_* kernel in the source starts its running maximum at the least key of its element
+type (f64: -∞, i64: i64::MIN) and its running minimum at the greatest (f64: +∞, i64: i64::MAX) —
+checked against the initialisers extracted from the source on this run -/
+theorem C03_kernel_inits_ok :
+    VibeProof.Generated.c03KernelInits.all initOk = true ∧ VibeProof.Generated.c03KernelInits.length = 8 := by
+  decide
+
+/-- hence each extracted MAX initialiser is ≤ every key of its type and each MIN initialiser ≥ -/
+theorem C03_kernel_init_bounds (e : String × String × String × String) (he : e ∈ VibeProof.Generated.c03KernelInits)
+    (k lo hi : Int) (hk : initKey e.2.2.2 = some k) (hlo : keyLo e.2.1 = some lo) (hhi : keyHi e.2.1 = some hi) :
+    (e.2.2.1 = "max" → ∀ v, lo ≤ v → k ≤ v) ∧ (e.2.2.1 = "min" → ∀ v, v ≤ hi → v ≤ k) := by
+  have hall : initOk e = true := List.all_eq_true.mp C03_kernel_inits_ok.1 e he
+  obtain ⟨f, ty, kind, init⟩ := e
+  simp only at hk hlo hhi ⊢
+  constructor
+  · intro hkind v hv
+    subst hkind
+    simp [initOk, hk, hlo] at hall
+    omega
+  · intro hkind v hv
+    subst hkind
+    simp [initOk, hk, hhi] at hall
+    omega
+
 /-! ### constants re-read from the source on every run (tools/consts.d/c03.py) -/
 
 /-- the model's SIMD probe length is the one in `can_use_simd_for_column` -/
